@@ -45,8 +45,16 @@ def gen_cases(tier, seed):
                 nsh = 1
             ls = [la, lb][:nsh] + [int(rng.integers(0, 4)) for _ in range(max(0, nsh - 2))]
             shells, classes = bases.rand_basis(rng, ls, scale=1.2)
+            if rep % 2 == 1 and nsh == 2:
+                shells, classes = bases.window_pair(rng, la, lb)
             cases.append({"shells": shells, "classes": classes + ["l:%d,%d" % (la, lb), "nsh:%d" % nsh],
                           "cost": sum((2 + a) * (2 + b) * len(x["e"]) * len(y["e"]) for x, a in zip(shells, ls) for y, b in zip(shells, ls))})
+    # screening-window sweep: high-l pairs at separations where exp(-mu R^2) runs through 1e-9 .. 1e-17
+    for (la, lb) in itertools.product((4, 5) if tier == "quick" else (3, 4, 5), repeat=2):
+        for t in range(20, 40, 2):
+            rng = bases.rng_for("C01", seed, tier, "window", la, lb, t)
+            shells, classes = bases.window_pair(rng, la, lb, tmin=t, tmax=t + 2)
+            cases.append({"shells": shells, "classes": classes + ["l:%d,%d" % (la, lb), "nsh:2", "window-sweep"], "cost": 40})
     return cases
 
 
